@@ -301,6 +301,34 @@ def s_iter_all(ip, frame, bb, st, callee, args, dty):
     sl = it.elems[0]
     if st.prove_eq0(sl.n):
         return [(st, TRUE)]
+    # small slice of a known array: evaluate the predicate element by element (one outcome per feasible length)
+    base0 = ip.read_raw(st, sl.root, sl.steps)
+    nlo, nhi = st.interval(sl.n)
+    s0 = st.const_of(sl.start)
+    if isinstance(base0, VArr) and s0 is not None and nlo is not None and nhi is not None and nhi - nlo <= 8 and nhi <= len(base0.elems):
+        outs = []
+        precise = True
+        for n in range(nlo, nhi + 1):
+            s2 = st.copy()
+            try:
+                s2.assume_eq0(sl.n - n)
+            except Infeasible:
+                continue
+            e = ("c", True)
+            for i in range(n):
+                root = ip.new_oid("iter-elem")
+                s2.mem[root] = base0.elems[s0 + i]
+                r = ip.call_value(frame, bb, s2, args[1], [VRef(root, (), False)], T.BOOL_TY)
+                if len(r) != 1 or r[0][0] is not s2 or not isinstance(r[0][1], VBool):
+                    precise = False
+                    break
+                ce = r[0][1].e
+                e = ce if e == ("c", True) else ("and", e, ce)
+            if not precise:
+                break
+            outs.append((s2, VBool(e)))
+        if precise and outs:
+            return outs
     # analyse the predicate once on an arbitrary element (for its obligations); it takes its item by value
     s2 = st.copy()
     root = ip.new_oid("iter-elem")
@@ -552,6 +580,15 @@ def s_copy_within(ip, frame, bb, st, callee, args, dty):
         return []
     if not require(ip, frame, bb, st, "IDX", "Le", d + (e - s), sl.n, "copy_within dest+count<=len"):
         return []
+    base = ip.read_raw(st, sl.root, sl.steps)
+    cs, ce, cd, c0 = st.const_of(s), st.const_of(e), st.const_of(d), st.const_of(sl.start)
+    if isinstance(base, VArr) and None not in (cs, ce, cd, c0):
+        el = list(base.elems)
+        src = el[c0 + cs:c0 + ce]
+        for i, v in enumerate(src):
+            el[c0 + cd + i] = v
+        ip.write_raw(st, sl.root, sl.steps, VArr(el))
+        return [(st, UNIT)]
     havoc_slice(ip, st, sl)
     return [(st, UNIT)]
 
